@@ -404,12 +404,13 @@ impl Run {
     }
 
     /// Write evidence, replay files and the verdict lines; exit.
-    pub fn finish(self) -> ! {
+    pub fn finish(&self) -> ! {
         let wall = self.start.elapsed().as_secs_f64();
-        let mut total = self.total.into_inner().unwrap();
-        let caps = self.caps.into_inner().unwrap();
+        let mut total = std::mem::take(&mut *self.total.lock().unwrap());
+        let caps = self.caps.lock().unwrap().clone();
         let exhaustive = caps.is_empty();
         total.violations.sort_by_key(|v| v.sort_key());
+        total.violations.dedup_by(|a, b| a.kind == b.kind && a.case == b.case);
 
         // vacuity guards: a run that explored nothing, or saw a single outcome,
         // is a machinery fault, not a pass
